@@ -122,6 +122,16 @@ def gen(rng):
             # the same path trashed again within the same second (a script that trashes and recreates a file): two entries, two lines
             G.add_trashed(steps, tdir, 't%d_1' % i, pv, TG.iso(date), rng.choice(['file', 'dir']), tag='%d-twin' % i)
             twins[0] += 1
+    if rng.random() < 0.08 and not any(u == home + '/a/deep' or u.startswith(home + '/a/deep/') for u in used if u.count('/') < 5):
+        # after the entries were trashed a directory of the path of some of them was replaced by a symlink that leads elsewhere
+        # (out of the requested directory, or - for /tmp/lnkin - into it): an entry belongs to the directory its RECORDED location
+        # is in, whatever the file system looks like today
+        steps.append(['d', home + '/a', 0o755])
+        steps.append(['l', home + '/a/deep', rng.choice(['/tmp', home + '/ab', '../ab'])])
+        steps.append(['l', '/tmp/lnkin', home + '/a'])
+        pv_ = TG.pct('/tmp/lnkin/was-in-tmp')
+        G.add_trashed(steps, G.home_trash_of(L['env']), 'tlink', pv_, TG.iso(TG.rand_date(rng)), 'file', tag='tlink')
+        twins[0] += 1
     if rng.random() < 0.2:
         # junk next to the entries (an empty .trashinfo left by an interrupted put, an unreadable one ...): everything that is
         # well-formed and in scope is still listed, numbered and restorable
@@ -328,6 +338,12 @@ def check(sim, case, st):
                 st.probes['restored'] += 1
                 want = OR.payload_tree(snap0, e)
                 have = Wd.subtree(snap1, e.location)
+                if e.location not in snap1:
+                    # (a directory on the recorded path may be a symlink today: where the kernel takes that path)
+                    d_, b_ = posixpath.split(e.location)
+                    rd_ = ML.resolve(snap1, d_)
+                    if rd_:
+                        have = Wd.subtree(snap1, (rd_ if rd_ != '/' else '') + '/' + b_)
                 if not clash and not Wd.same_tree(want, have):
                     bad('restored-content', 'entry %r: destination does not hold the trashed payload' % (e,))
                 if not OR.pair_gone(snap1, e):
